@@ -440,3 +440,230 @@ def install_json(cx):
 
     base = mod("acnportal.acnsim.base")
     cx.patch(base, "json", JsonProxy(real_json), sym_only=True)
+
+
+# ---- calendar model: datetime / timedelta / Decimal as seen by tou_tariff, interface, analysis ----------------------------
+#
+# A SymDateTime is (leap flag of its year, weekday of 1 January, 0-based day of year, second of day) - all SymInts - with
+# month / day / weekday / hour / minute / second derived by linear integer arithmetic over the Gregorian month table.
+# Adding a (non-negative) timedelta may cross ONE new year; the next year's type follows from the calendar
+# (weekday of its 1 January = old + 365 + leap mod 7; its leap flag is the declared input `leap_next`, never two leap
+# years in a row).  In concrete replays the same inputs are turned into a REAL datetime of a matching year.
+
+_CUM = [0, 31, 59, 90, 120, 151, 181, 212, 243, 273, 304, 334, 365]  # non-leap cumulative days before month m+1
+
+
+def _year_for(leap, jan1, leap_next):
+    import calendar
+    import datetime as _dt
+
+    for y in range(1970, 2100):
+        if int(calendar.isleap(y)) == leap and _dt.date(y, 1, 1).weekday() == jan1 and int(calendar.isleap(y + 1)) == leap_next:
+            return y
+    raise core.AssumptionFailed("no year of type %s" % ((leap, jan1, leap_next),))
+
+
+def _divmod_const(x, k):
+    """(x div k, x mod k) for a constant k > 0 through fresh integer variables (much cheaper for z3 than div/mod terms)"""
+    if not is_sym(x):
+        return x // k, x % k
+    cx = core.Ctx.cur
+    qv = z3.Int(cx.fresh_name("q"))
+    rv = z3.Int(cx.fresh_name("r"))
+    cx.solver.add(core.toz3(x) == k * qv + rv, rv >= 0, rv < k)
+    cx.model = None
+    return core.SymInt(qv), core.SymInt(rv)
+
+
+class SymTimedelta:
+    __slots__ = ("secs",)
+
+    def __init__(self, days=0, seconds=0, microseconds=0, milliseconds=0, minutes=0, hours=0, weeks=0):
+        if not (isinstance(microseconds, int) and microseconds == 0 and isinstance(milliseconds, int) and milliseconds == 0):
+            raise TypeError("sub-second timedelta is not modelled")
+        self.secs = ((weeks * 7 + days) * 24 + hours) * 3600 + minutes * 60 + seconds
+
+    @staticmethod
+    def of(secs):
+        t = SymTimedelta()
+        t.secs = secs
+        return t
+
+    def __mul__(self, k):
+        return SymTimedelta.of(self.secs * k)
+
+    __rmul__ = __mul__
+
+    def __add__(self, o):
+        if isinstance(o, SymTimedelta):
+            return SymTimedelta.of(self.secs + o.secs)
+        return NotImplemented
+
+    def __neg__(self):
+        return SymTimedelta.of(-self.secs)
+
+    def total_seconds(self):
+        return self.secs
+
+    def __deepcopy__(self, memo):
+        return self
+
+
+class SymDateTime:
+    """naive calendar instant; see the module comment above"""
+
+    def __init__(self, leap, jan1, doy, sod, leap_next, wraps=0):
+        self.leap, self.jan1, self.doy, self.sod, self.leap_next, self.wraps = leap, jan1, doy, sod, leap_next, wraps
+        self._hms = self._md = self._wd = None
+
+    def _fields(self):
+        if self._hms is None:
+            mod_, sec = _divmod_const(self.sod, 60)
+            hour, minute = _divmod_const(mod_, 60)
+            self._hms = (hour, minute, sec)
+        return self._hms
+
+    # ---- derived fields
+    def _cum(self, m):
+        return _CUM[m] + (self.leap if m >= 2 else 0)
+
+    def _monthday(self):
+        if self._md is None:
+            r = 1
+            d = self.doy + 1
+            for m in range(1, 12):
+                dim = _CUM[m] - _CUM[m - 1] + (self.leap if m == 2 else 0)
+                c = core.ge(self.doy, self._cum(m))
+                r = r + core.ite(c, 1, 0)
+                d = d - core.ite(c, dim, 0)
+            self._md = (r, d)
+        return self._md
+
+    @property
+    def month(self):
+        return self._monthday()[0]
+
+    @property
+    def day(self):
+        return self._monthday()[1]
+
+    def weekday(self):
+        if self._wd is None:
+            self._wd = _divmod_const(self.jan1 + self.doy, 7)[1]
+        return self._wd
+
+    def isoweekday(self):
+        return self.weekday() + 1
+
+    @property
+    def hour(self):
+        return self._fields()[0]
+
+    @property
+    def minute(self):
+        return self._fields()[1]
+
+    @property
+    def second(self):
+        return self._fields()[2]
+
+    @property
+    def microsecond(self):
+        return 0
+
+    @property
+    def tzinfo(self):
+        return None
+
+    def replace(self, **kw):
+        if set(kw) - {"tzinfo"}:
+            raise TypeError("SymDateTime.replace: only tzinfo is modelled")
+        return self
+
+    def __add__(self, td):
+        if not isinstance(td, SymTimedelta):
+            return NotImplemented
+        cx = core.Ctx.cur
+        total = self.sod + td.secs
+        dd, sod = _divmod_const(total, 86400)
+        doy = self.doy + dd
+        ylen = 365 + self.leap
+        # the harness bounds deltas so that at most one new year is crossed, forwards
+        cx.assume(core.and_(core.ge(td.secs, 0), core.lt(doy - ylen, 365)))
+        wrap = core.ge(doy, ylen)
+        return SymDateTime(core.ite(wrap, self.leap_next, self.leap), core.ite(wrap, _divmod_const(self.jan1 + ylen, 7)[1], self.jan1),
+                           core.ite(wrap, doy - ylen, doy), sod, core.ite(wrap, 0, self.leap_next), self.wraps + 1)
+
+    __radd__ = __add__
+
+    def __sub__(self, o):
+        if isinstance(o, SymTimedelta):
+            return self + (-o)
+        return NotImplemented
+
+    def __deepcopy__(self, memo):
+        return self
+
+    def __format__(self, spec):
+        return "<symbolic datetime>"
+
+    __str__ = __repr__ = lambda self: "<symbolic datetime>"
+
+
+def make_datetime(cx, prefix="dt", doy_range=None, sod_range=None, jan1_in=None):
+    """declares the calendar inputs; returns a SymDateTime (symbolic mode) or the matching real datetime (concrete replay)"""
+    import datetime as _dt
+
+    leap = cx.int(prefix + "_leap", 0, 1)
+    jan1 = cx.int(prefix + "_jan1wd", 0, 6)
+    doy = cx.int(prefix + "_doy", *(doy_range or (0, 365)))
+    sod = cx.int(prefix + "_sod", *(sod_range or (0, 86399)))
+    leap_next = cx.int(prefix + "_leap_next", 0, 1)
+    cx.assume(core.and_(core.le(doy, 364 + leap), core.le(leap + leap_next, 1)))
+    if jan1_in is not None:
+        cx.assume(core.or_(*[core.eq(jan1, j) for j in jan1_in]))
+    if cx.mode == "conc":
+        y = _year_for(leap, jan1, leap_next)
+        return _dt.datetime(y, 1, 1) + _dt.timedelta(days=doy, seconds=sod)
+    return SymDateTime(leap, jan1, doy, sod, leap_next)
+
+
+def dt_fields(dt):
+    """(month, day, weekday, second of day) of a SymDateTime or a real datetime - used by oracles"""
+    if isinstance(dt, SymDateTime):
+        return dt.month, dt.day, dt.weekday(), dt.sod
+    return dt.month, dt.day, dt.weekday(), dt.hour * 3600 + dt.minute * 60 + dt.second
+
+
+def dt_shift(dt, secs):
+    """oracle-side shift by a number of seconds (SymDateTime or real datetime)"""
+    import datetime as _dt
+
+    if isinstance(dt, SymDateTime):
+        return dt + SymTimedelta.of(secs)
+    return dt + _dt.timedelta(seconds=secs)
+
+
+def dt_later_year(a, b):
+    """True iff instant b lies in a later calendar year than a (b = a + delta); forks in symbolic mode"""
+    if isinstance(b, SymDateTime):
+        return b.wraps > a.wraps and bool(b.doy < a.doy)  # deltas are < 365 days
+    return b.year > a.year
+
+
+def sym_decimal(x=0):
+    """Decimal as an exact rational (tou_tariff): breakpoints are exactly representable; symbolic values pass through"""
+    import fractions
+
+    if is_sym(x):
+        return x
+    return fractions.Fraction(x)
+
+
+def install_calendar(cx, modules=("acnportal.signals.tariffs.tou_tariff", "acnportal.acnsim.interface")):
+    for name in modules:
+        m = mod(name)
+        if hasattr(m, "timedelta"):
+            cx.patch(m, "timedelta", SymTimedelta, sym_only=True)
+        if name.endswith("tou_tariff"):
+            cx.patch(m, "Decimal", sym_decimal, sym_only=True)
